@@ -1,4 +1,4 @@
-import SiaProofs.Lemmas.LedgerC01Solv
+import SiaProofs.Lemmas.LedgerC01ScW
 import SiaProofs.Lemmas.LedgerC01Fees
 /-!
 # C01 helper lemmas, part 8: the loops of `applyV2Transaction`
@@ -21,12 +21,14 @@ theorem loop_scIns2 {T} (l : List ScIn2) : ∀ (ms ms' : Mid), Ctx T ms.base →
     (∀ sci ∈ l, SpendableSc T ms sci.parent) → (l.map (·.parent.id)).Nodup →
     l.foldlM stepScIn2 ms = .ok ms' →
     Reached T ms ms' (· ∈ l.map (·.parent.id)) ∧
-    Phi ms' + (l.map (·.parent.value)).sum = Phi ms ∧ sfTot ms' = sfTot ms ∧ ms'.pool = ms.pool := by
+    Phi ms' + (l.map (·.parent.value)).sum = Phi ms ∧ sfTot ms' = sfTot ms ∧ ms'.pool = ms.pool ∧
+    ∀ w : ScElem → Nat, (∀ a b : ScElem, a.value = b.value → a.maturity = b.maturity → w a = w b) →
+      scW w ms' + (l.map (fun i => w i.parent)).sum = scW w ms := by
   induction l with
   | nil =>
     intro ms ms' _ hI _ _ h
     simp only [List.foldlM_nil] at h; cases h
-    exact ⟨⟨hI, rfl, Agree.refl _ _⟩, by simp, rfl, rfl⟩
+    exact ⟨⟨hI, rfl, Agree.refl _ _⟩, by simp, rfl, rfl, by simp⟩
   | cons a l ih =>
     intro ms ms' hc hI hs hn h
     rw [List.foldlM_cons, bind_eq_ok] at h
@@ -38,10 +40,15 @@ theorem loop_scIns2 {T} (l : List ScIn2) : ∀ (ms ms' : Mid), Ctx T ms.base →
       intro sci hm
       apply (hs sci (List.mem_cons_of_mem _ hm)).agree hA1
       intro he; exact hn.1 (he ▸ List.mem_map_of_mem hm)
-    obtain ⟨hR, hP, hS, hp⟩ := ih _ ms' (hb1 ▸ hc) hI1 hs1 hn.2 h2
-    refine ⟨⟨hR.inv, hR.base.trans hb1, ?_⟩, ?_, hS.trans hS1, hp.trans hp1⟩
+    obtain ⟨hR, hP, hS, hp, hW⟩ := ih _ ms' (hb1 ▸ hc) hI1 hs1 hn.2 h2
+    refine ⟨⟨hR.inv, hR.base.trans hb1, ?_⟩, ?_, hS.trans hS1, hp.trans hp1, ?_⟩
     · exact (hA1.step hR.agree).mono (fun x hx => by simpa using hx)
     · simp only [List.map_cons, List.sum_cons]; omega
+    · intro w hw
+      have h1 := hW w hw
+      have h3 := spendSc_w w hw hc hI (hs a List.mem_cons_self)
+      simp only [List.map_cons, List.sum_cons]
+      omega
 
 -- ------------------------------------------------------------------ siacoin outputs
 
@@ -49,12 +56,13 @@ theorem loop_scOuts {T} (l : List (Id × ScOut)) : ∀ (ms ms' : Mid) (R : List 
     Fresh T ms (l.map (fun x => (Kind.sc, x.1)) ++ R) →
     l.foldlM stepScOut ms = .ok ms' →
     Reached T ms ms' (· ∈ l.map (·.1)) ∧ Fresh T ms' R ∧
-    Phi ms' = Phi ms + (l.map (·.2.value)).sum ∧ sfTot ms' = sfTot ms ∧ ms'.pool = ms.pool := by
+    Phi ms' = Phi ms + (l.map (·.2.value)).sum ∧ sfTot ms' = sfTot ms ∧ ms'.pool = ms.pool ∧
+    ∀ w : ScElem → Nat, scW w ms' = scW w ms + (l.map (fun x => w ⟨x.1, x.2.value, x.2.addr, 0, none⟩)).sum := by
   induction l with
   | nil =>
     intro ms ms' R _ hI hF h
     simp only [List.foldlM_nil] at h; cases h
-    exact ⟨⟨hI, rfl, Agree.refl _ _⟩, hF, by simp, rfl, rfl⟩
+    exact ⟨⟨hI, rfl, Agree.refl _ _⟩, hF, by simp, rfl, rfl, by simp⟩
   | cons a l ih =>
     intro ms ms' R hc hI hF h
     rw [List.foldlM_cons, bind_eq_ok] at h
@@ -62,10 +70,15 @@ theorem loop_scOuts {T} (l : List (Id × ScOut)) : ∀ (ms ms' : Mid) (R : List 
     cases h1
     simp only [List.map_cons, List.cons_append] at hF
     obtain ⟨hI1, hA1, hF1, hP1, hS1, hp1, hb1⟩ := createSc_spec hc hI hF a.2 0
-    obtain ⟨hR, hF', hP, hS, hp⟩ := ih _ ms' R (hb1 ▸ hc) hI1 hF1 h2
-    refine ⟨⟨hR.inv, hR.base.trans hb1, ?_⟩, hF', ?_, hS.trans hS1, hp.trans hp1⟩
+    obtain ⟨hR, hF', hP, hS, hp, hW⟩ := ih _ ms' R (hb1 ▸ hc) hI1 hF1 h2
+    refine ⟨⟨hR.inv, hR.base.trans hb1, ?_⟩, hF', ?_, hS.trans hS1, hp.trans hp1, ?_⟩
     · exact (hA1.step hR.agree).mono (fun x hx => by simpa using hx)
     · simp only [List.map_cons, List.sum_cons]; omega
+    · intro w
+      have h1 := hW w
+      have h2 := createSc_w w hc hI hF a.2 0
+      simp only [List.map_cons, List.sum_cons]
+      omega
 
 -- ------------------------------------------------------------------ siafund inputs (v2)
 
@@ -79,12 +92,14 @@ theorem loop_sfIns2 {T} (l : List SfIn2) : ∀ (ms ms' : Mid) (R : List (Kind ×
     Reached T ms ms' (fun x => x ∈ l.map (·.parent.id) ∨ x ∈ l.map (·.claimId)) ∧ Fresh T ms' R ∧
     Phi ms' = Phi ms + (l.map (fun i => claimVal ms.pool i.parent.claimStart i.parent.value)).sum ∧
     sfTot ms' + (l.map (·.parent.value)).sum = sfTot ms ∧ ms'.pool = ms.pool ∧
-    ∀ w : SfElem → Nat, sfW w ms' + (l.map (fun i => w i.parent)).sum = sfW w ms := by
+    (∀ w : SfElem → Nat, sfW w ms' + (l.map (fun i => w i.parent)).sum = sfW w ms) ∧
+    ∀ w : ScElem → Nat, scW w ms' = scW w ms + (l.map (fun i => w ⟨i.claimId,
+      claimVal ms.pool i.parent.claimStart i.parent.value, i.claimAddr, maturityHeight ms.base, none⟩)).sum := by
   induction l with
   | nil =>
     intro ms ms' R _ hI _ _ hF h
     simp only [List.foldlM_nil] at h; cases h
-    exact ⟨⟨hI, rfl, Agree.refl _ _⟩, hF, by simp, by simp, rfl, by simp⟩
+    exact ⟨⟨hI, rfl, Agree.refl _ _⟩, hF, by simp, by simp, rfl, by simp, by simp⟩
   | cons a l ih =>
     intro ms ms' R hc hI hs hn hF h
     rw [List.foldlM_cons, bind_eq_ok] at h
@@ -110,8 +125,8 @@ theorem loop_sfIns2 {T} (l : List SfIn2) : ∀ (ms ms' : Mid) (R : List (Kind ×
       rintro (he | he)
       · exact hn.1 (he ▸ List.mem_map_of_mem hm)
       · exact hsf.not_fresh hF (Kind.sc, a.claimId) List.mem_cons_self he.symm
-    obtain ⟨hR, hF', hP, hS, hp, hW⟩ := ih _ ms' R (by rw [hb2, hb1]; exact hc) hI2 hs2 hn.2 hF2 h2
-    refine ⟨⟨hR.inv, hR.base.trans (hb2.trans hb1), ?_⟩, hF', ?_, ?_, hp.trans (hp2.trans hp1), ?_⟩
+    obtain ⟨hR, hF', hP, hS, hp, hW, hWc⟩ := ih _ ms' R (by rw [hb2, hb1]; exact hc) hI2 hs2 hn.2 hF2 h2
+    refine ⟨⟨hR.inv, hR.base.trans (hb2.trans hb1), ?_⟩, hF', ?_, ?_, hp.trans (hp2.trans hp1), ?_, ?_⟩
     · refine (hA12.mono (fun _ h => Or.inl h) |>.trans (hR.agree.mono (fun _ h => Or.inr h))).mono ?_
       intro x hx; simp only [List.map_cons, List.mem_cons]
       rcases hx with (h | h) | (h | h)
@@ -131,6 +146,20 @@ theorem loop_sfIns2 {T} (l : List SfIn2) : ∀ (ms ms' : Mid) (R : List (Kind ×
         sfW_congr w hb2 (by unfold Mid.createSc; exact putSc_sfes _ _ _)
       have h3 := spendSf_w w hc hI hsa
       simp only [List.map_cons, List.sum_cons]
+      omega
+    · intro w
+      have h1 := hWc w
+      rw [hp2, hp1, hb2, hb1] at h1
+      have h2 : scW w ((ms.spendSf a.parent).createSc a.claimId { value := c, addr := a.claimAddr }
+          (maturityHeight (ms.spendSf a.parent).base)) = scW w (ms.spendSf a.parent) +
+          w ⟨a.claimId, c, a.claimAddr, maturityHeight (ms.spendSf a.parent).base, none⟩ :=
+        createSc_w w (hb1 ▸ hc) hI1 hF1 { value := c, addr := a.claimAddr } (maturityHeight (ms.spendSf a.parent).base)
+      have h3 : scW w (ms.spendSf a.parent) = scW w ms :=
+        scW_congr w hb1 (by unfold Mid.spendSf; exact putSf_sces _ _ _)
+      have hcv : claimVal ms.pool a.parent.claimStart a.parent.value = c := by unfold claimVal; exact hcl.2.2.symm
+      rw [hb1] at h2
+      simp only [List.map_cons, List.sum_cons]
+      rw [hcv]
       omega
 
 -- ------------------------------------------------------------------ siafund outputs
@@ -259,19 +288,24 @@ theorem two_outputs {T} {ms : Mid} (hc : Ctx T ms.base) (hI : Inv T ms) {i1 i2 :
     Phi ((ms.createImmatureSc i1 o1).createImmatureSc i2 o2) = Phi ms + o1.value + o2.value ∧
     sfTot ((ms.createImmatureSc i1 o1).createImmatureSc i2 o2) = sfTot ms ∧
     ((ms.createImmatureSc i1 o1).createImmatureSc i2 o2).pool = ms.pool ∧
-    ((ms.createImmatureSc i1 o1).createImmatureSc i2 o2).base = ms.base := by
+    ((ms.createImmatureSc i1 o1).createImmatureSc i2 o2).base = ms.base ∧
+    ∀ w : ScElem → Nat, scW w ms ≤ scW w ((ms.createImmatureSc i1 o1).createImmatureSc i2 o2) := by
   unfold Mid.createImmatureSc
   obtain ⟨hI1, hA1, hF1, hP1, hS1, hp1, hb1⟩ := createSc_spec hc hI hF o1 (maturityHeight ms.base)
   obtain ⟨hI2, hA2, hF2, hP2, hS2, hp2, hb2⟩ := createSc_spec (by rw [hb1]; exact hc) hI1 hF1 o2
     (maturityHeight (ms.createSc i1 o1 (maturityHeight ms.base)).base)
-  exact ⟨hI2, hA1.step hA2, hF2, by rw [hP2, hP1], hS2.trans hS1, hp2.trans hp1, hb2.trans hb1⟩
+  refine ⟨hI2, hA1.step hA2, hF2, by rw [hP2, hP1], hS2.trans hS1, hp2.trans hp1, hb2.trans hb1, ?_⟩
+  intro w
+  have h1 := createSc_w w hc hI hF o1 (maturityHeight ms.base)
+  have h2 := createSc_w w (by rw [hb1]; exact hc) hI1 hF1 o2 (maturityHeight (ms.createSc i1 o1 (maturityHeight ms.base)).base)
+  omega
 
 theorem stepRes2_spec {T} {ms ms' : Mid} (hc : Ctx T ms.base) (hI : Inv T ms) {r : Resolution2} {R : List (Kind × Id)}
     (hl : LiveFc2 T ms r.parent) (hF : Fresh T ms (r.created ++ R)) (hnew : resNewOk r)
     (h : stepRes2 ms r = .ok ms') :
     Inv T ms' ∧ Agree ms ms' (fun x => x = r.parent.id ∨ x ∈ r.created.map (·.2)) ∧ Fresh T ms' R ∧
     Phi ms' + resOut r = Phi ms + resIn r ∧ sfTot ms' = sfTot ms ∧ ms'.pool = ms.pool + resTax r ∧
-    ms'.base = ms.base := by
+    ms'.base = ms.base ∧ ∀ w : ScElem → Nat, scW w ms ≤ scW w ms' := by
   have hmh := hc.fc2_missed r.parent hl.2.1
   unfold stepRes2 at h
   unfold Resolution2.created at hF ⊢
@@ -287,8 +321,10 @@ theorem stepRes2_spec {T} {ms ms' : Mid} (hc : Ctx T ms.base) (hI : Inv T ms) {r
     have hF1 := hF.agree hA1 (fun q hq => hl.not_fresh hF q hq)
     simp only [List.cons_append, List.nil_append] at hF1
     obtain ⟨hI2, hA2, hF2, hP2, hS2, hp2, hb2⟩ := createFc2_spec (hb1 ▸ hc) hI1 hF1 hnew h2
-    obtain ⟨hI3, hA3, hF3, hP3, hS3, hp3, hb3⟩ := two_outputs (by rw [hb2, hb1]; exact hc) hI2 hF2 rn.finalRenter rn.finalHost
-    refine ⟨hI3, ?_, hF3, ?_, hS3.trans (hS2.trans hS1), ?_, hb3.trans (hb2.trans hb1)⟩
+    obtain ⟨hI3, hA3, hF3, hP3, hS3, hp3, hb3, hw3⟩ := two_outputs (by rw [hb2, hb1]; exact hc) hI2 hF2 rn.finalRenter rn.finalHost
+    refine ⟨hI3, ?_, hF3, ?_, hS3.trans (hS2.trans hS1), ?_, hb3.trans (hb2.trans hb1), ?_⟩
+    rotate_left 3
+    · intro w; have := hw3 w; rw [scW_createFc2 h2 w, scW_resolveFc2 h1 w] at this; exact this
     · refine ((hA1.mono ?_).trans ((hA2.mono ?_).trans (hA3.mono ?_)))
       · intro x hx; exact Or.inl hx
       · intro x hx; right; simp only [List.map_cons, List.mem_cons]; exact Or.inl hx
@@ -305,8 +341,10 @@ theorem stepRes2_spec {T} {ms ms' : Mid} (hc : Ctx T ms.base) (hI : Inv T ms) {r
     obtain ⟨hI1, hA1, hP1, hS1, hp1, hb1⟩ := resolveFc2_spec hc hI hl h1
     have hF1 := hF.agree hA1 (fun q hq => hl.not_fresh hF q hq)
     simp only [List.cons_append, List.nil_append] at hF1
-    obtain ⟨hI3, hA3, hF3, hP3, hS3, hp3, hb3⟩ := two_outputs (hb1 ▸ hc) hI1 hF1 r.parent.fc.renter r.parent.fc.host
-    refine ⟨hI3, ?_, hF3, ?_, hS3.trans hS1, ?_, hb3.trans hb1⟩
+    obtain ⟨hI3, hA3, hF3, hP3, hS3, hp3, hb3, hw3⟩ := two_outputs (hb1 ▸ hc) hI1 hF1 r.parent.fc.renter r.parent.fc.host
+    refine ⟨hI3, ?_, hF3, ?_, hS3.trans hS1, ?_, hb3.trans hb1, ?_⟩
+    rotate_left 3
+    · intro w; have := hw3 w; rw [scW_resolveFc2 h1 w] at this; exact this
     · refine ((hA1.mono ?_).trans (hA3.mono ?_))
       · intro x hx; exact Or.inl hx
       · intro x hx; right; simp only [List.map_cons, List.map_nil, List.mem_cons, List.mem_nil_iff, or_false]; exact hx
@@ -319,9 +357,11 @@ theorem stepRes2_spec {T} {ms ms' : Mid} (hc : Ctx T ms.base) (hI : Inv T ms) {r
     obtain ⟨hI1, hA1, hP1, hS1, hp1, hb1⟩ := resolveFc2_spec hc hI hl h1
     have hF1 := hF.agree hA1 (fun q hq => hl.not_fresh hF q hq)
     simp only [List.cons_append, List.nil_append] at hF1
-    obtain ⟨hI3, hA3, hF3, hP3, hS3, hp3, hb3⟩ := two_outputs (hb1 ▸ hc) hI1 hF1 r.parent.fc.renter
+    obtain ⟨hI3, hA3, hF3, hP3, hS3, hp3, hb3, hw3⟩ := two_outputs (hb1 ▸ hc) hI1 hF1 r.parent.fc.renter
       { value := r.parent.fc.missedHost, addr := r.parent.fc.host.addr }
-    refine ⟨hI3, ?_, hF3, ?_, hS3.trans hS1, ?_, hb3.trans hb1⟩
+    refine ⟨hI3, ?_, hF3, ?_, hS3.trans hS1, ?_, hb3.trans hb1, ?_⟩
+    rotate_left 3
+    · intro w; have := hw3 w; rw [scW_resolveFc2 h1 w] at this; exact this
     · refine ((hA1.mono ?_).trans (hA3.mono ?_))
       · intro x hx; exact Or.inl hx
       · intro x hx; right; simp only [List.map_cons, List.map_nil, List.mem_cons, List.mem_nil_iff, or_false]; exact hx
@@ -338,19 +378,19 @@ theorem loop_ress2 {T} (l : List Resolution2) : ∀ (ms ms' : Mid) (R : List (Ki
     Reached T ms ms' (fun x => x ∈ l.map (·.parent.id) ∨ x ∈ (l.flatMap Resolution2.created).map (·.2)) ∧
     Fresh T ms' R ∧
     Phi ms' + (l.map resOut).sum = Phi ms + (l.map resIn).sum ∧ sfTot ms' = sfTot ms ∧
-    ms'.pool = ms.pool + (l.map resTax).sum := by
+    ms'.pool = ms.pool + (l.map resTax).sum ∧ ∀ w : ScElem → Nat, scW w ms ≤ scW w ms' := by
   induction l with
   | nil =>
     intro ms ms' R _ hI _ _ hF h
     simp only [List.foldlM_nil] at h; cases h
-    exact ⟨⟨hI, rfl, Agree.refl _ _⟩, hF, by simp, rfl, by simp⟩
+    exact ⟨⟨hI, rfl, Agree.refl _ _⟩, hF, by simp, rfl, by simp, fun _ => Nat.le_refl _⟩
   | cons a l ih =>
     intro ms ms' R hc hI hs hn hF h
     rw [List.foldlM_cons, bind_eq_ok] at h
     obtain ⟨ms1, h1, h2⟩ := h
     simp only [List.map_cons, List.nodup_cons, List.flatMap_cons, List.append_assoc] at hn hF
     obtain ⟨hla, hna⟩ := hs a List.mem_cons_self
-    obtain ⟨hI1, hA1, hF1, hP1, hS1, hp1, hb1⟩ := stepRes2_spec hc hI hla hF hna h1
+    obtain ⟨hI1, hA1, hF1, hP1, hS1, hp1, hb1, hw1⟩ := stepRes2_spec hc hI hla hF hna h1
     have hs1 : ∀ r ∈ l, LiveFc2 T ms1 r.parent ∧ resNewOk r := by
       intro r hr
       obtain ⟨h1, h2⟩ := hs r (List.mem_cons_of_mem _ hr)
@@ -359,8 +399,8 @@ theorem loop_ress2 {T} (l : List Resolution2) : ∀ (ms ms' : Mid) (R : List (Ki
       · exact hn.1 (he ▸ List.mem_map_of_mem hr)
       · obtain ⟨q, hq, hq2⟩ := List.mem_map.mp he
         exact h1.not_fresh hF q (List.mem_append_left _ hq) hq2
-    obtain ⟨hR, hF', hP, hS, hp⟩ := ih _ ms' R (hb1 ▸ hc) hI1 hs1 hn.2 hF1 h2
-    refine ⟨⟨hR.inv, hR.base.trans hb1, ?_⟩, hF', ?_, hS.trans hS1, ?_⟩
+    obtain ⟨hR, hF', hP, hS, hp, hw⟩ := ih _ ms' R (hb1 ▸ hc) hI1 hs1 hn.2 hF1 h2
+    refine ⟨⟨hR.inv, hR.base.trans hb1, ?_⟩, hF', ?_, hS.trans hS1, ?_, fun w => Nat.le_trans (hw1 w) (hw w)⟩
     · refine ((hA1.mono ?_).trans (hR.agree.mono ?_))
       · intro x hx; simp only [List.map_cons, List.mem_cons, List.flatMap_cons, List.map_append, List.mem_append]
         rcases hx with hx | hx
